@@ -272,11 +272,23 @@ pub fn run(sut: &dyn Sut, tier: Tier) -> ! {
         let c = build_case(&mut ch, true);
         judge_wide(sut, &c, st)
     };
-    if let Some(f) = run_inprocess(run.seed_for(1), cases, (210, 500), &mut stats, &mut j) {
+    let mut found = run_inprocess(run.seed_for(1), cases, (210, 500), &mut stats, &mut j);
+    if let Some(f) = found.take() {
         let mut ch = Ch::new(&f.choices);
         let c = build_case(&mut ch, true);
         run.violation(json!({"kind": "c16wide", "wgsl": c.wgsl, "include_path": c.include_path, "rustfmt": c.rustfmt, "choices": f.choices}), &f.message);
         run.finish(&stats);
+    }
+    if tier == Tier::Thorough {
+        // coverage-guided search over the choice sequences, formatter off (no process spawning
+        // inside a libFuzzer iteration)
+        let mut jf = |choices: &[u32], st: &mut Stats| judge_choices(sut, choices, st);
+        if let Some(f) = fuzz_choices(&run, &mut stats, (210, 500), 300, 12, 8_000, &mut jf) {
+            let mut ch = Ch::new(&f.choices);
+            let c = build_case(&mut ch, false);
+            run.violation(json!({"kind": "c16wide", "wgsl": c.wgsl, "include_path": c.include_path, "rustfmt": c.rustfmt, "choices": f.choices}), &f.message);
+            run.finish(&stats);
+        }
     }
     let rounds = tier.pick(1, 4);
     let n = tier.pick(160, 800);
@@ -287,4 +299,12 @@ pub fn run(sut: &dyn Sut, tier: Tier) -> ! {
     }
     stats.check_health("C16");
     run.finish(&stats)
+}
+
+/// wide-width judge as a function of the choice sequence (used by the coverage-guided target);
+/// the formatter is left off: a libFuzzer iteration must not spawn processes
+pub fn judge_choices(sut: &dyn Sut, choices: &[u32], stats: &mut Stats) -> Result<(), String> {
+    let mut ch = Ch::new(choices);
+    let c = build_case(&mut ch, false);
+    judge_wide(sut, &c, stats)
 }
